@@ -34,6 +34,10 @@ impl EW for i32 {
     fn from_i64(x: i64) -> Self { x as i32 }
     fn to_i64(self) -> i64 { self as i64 }
 }
+impl EW for u32 {
+    fn from_i64(x: i64) -> Self { if x == GARBAGE_W { 4_000_000 } else { x as u32 } }
+    fn to_i64(self) -> i64 { self as i64 }
+}
 impl EW for f64 {
     fn from_i64(x: i64) -> Self { x as f64 }
     fn to_i64(self) -> i64 { if self.is_infinite() { INF } else { self as i64 } }
